@@ -277,6 +277,10 @@ theorem bankruptcy_shape :
     Acc.hasOneOf .LendingPoolHandleBankruptcy .f_bank .f_group = true ∧
     Acc.hasOneOf .LendingPoolHandleBankruptcy .f_marginfi_account .f_group = true := by decide
 
+/-- every step of the handler is unconditional (the authorization test and the kill are the only branches,
+    and they contain none of these calls) -/
+theorem bankruptcy_unconditional : allUnconditional handle_bankruptcy_cond = true := by decide
+
 /-- the only place that kills a bank is the bankruptcy handler, and `Bank::configure` can never leave the
     killed state (C13: configure_killed_iff) -/
 theorem disabled_only_by_bankruptcy_or_transfer :
